@@ -104,8 +104,16 @@ type entry[TValue any] struct {
 	expunged *TValue
 }
 
+// expungedBox gives the expunged sentinel a non-zero-size allocation: for a
+// zero-size TValue, new(TValue) and every stored &value are the same address
+// (runtime.zerobase), so each stored value would compare equal to the sentinel.
+type expungedBox[TValue any] struct {
+	v TValue
+	_ byte
+}
+
 func newEntry[TValue any](i TValue) *entry[TValue] {
-	e := &entry[TValue]{expunged: new(TValue)}
+	e := &entry[TValue]{expunged: &new(expungedBox[TValue]).v}
 	e.p.Store(&i)
 	return e
 }
